@@ -801,7 +801,7 @@ def run(chk, args):
         cases += [b["replay"]["case"] for b in rep.get("no_longer_checks", []) if "case" in b.get("replay", {})]
     else:
         quick = chk.tier == "quick"
-        n_trees, n_loads, n_hist = (800, 220, 70) if quick else (30000, 4000, 2000)
+        n_trees, n_loads, n_hist = (800, 190, 64) if quick else (30000, 4000, 2000)
         cases = [gen_trees(chk.rng, malformed=(i % 8 == 7)) for i in range(n_trees)]
         for i, c in enumerate(cases):
             # every other well-formed case goes through the deprecated second entry point of the conversion
